@@ -9,3 +9,6 @@ def check(rep, tier):
     rep.run(rules_exact.run, rep, tier, rules_exact.CLAUSE_PROPS["C04"])
     rep.run(rules_exact.run, rep, tier, ("X-vjp", "X-jvp", "X-shape", "X-jvp-shape"), which="index")
     rep.run(rules_exact.run, rep, tier, ("X-shape", "X-jvp-shape"))
+    from contracts import rules_numeric as _rn
+    rep.run(_rn.run_near_tie, rep)
+    rep.run(_rn.run, rep, tier, clauses=("N-adjoint",), only_complex="real-only")
